@@ -67,8 +67,11 @@ def rand_encoders(rng, lo=0, hi=4, textual=False):
             out.append((e, bytes(rng.choice(b"abcXYZ019-_=;") for _ in range(rng.randrange(0, 6)))))
         else:
             out.append((e, True))
-    if textual and not any(e in ("base64", "base64url", "netbios", "netbiosu") for e, _ in out):
-        out.append((rng.choice(["base64url", "netbios", "netbiosu", "base64"]), True))
+    if textual:
+        # a placement in a header / parameter must be printable: the last encoder that rewrites the whole data is a textual one
+        last = [e for e, _ in out if e not in ("append", "prepend")]
+        if not last or last[-1] == "mask":
+            out.append((rng.choice(["base64url", "netbios", "netbiosu", "base64"]), True))
     return out
 
 
